@@ -5,6 +5,7 @@ use crate::util::{Rng, Stats};
 
 pub mod param;
 pub mod units;
+pub mod wav;
 
 pub fn suite_salt(name: &str) -> u64 {
 	name.bytes()
@@ -15,6 +16,7 @@ pub fn gen(suite: &str, rng: &mut Rng, n: usize, thorough: bool, stats: &mut Sta
 	match suite {
 		"units" => units::gen(rng, n, thorough, stats),
 		"param" => param::gen(rng, n, thorough, stats),
+		"wav" => wav::gen(rng, n, thorough, stats),
 		_ => panic!("unknown suite {}", suite),
 	}
 }
@@ -23,6 +25,7 @@ pub fn run(suite: &str, ops: &[String]) -> Vec<String> {
 	match suite {
 		"units" => units::run(ops),
 		"param" => param::run(ops),
+		"wav" => wav::run(ops),
 		_ => panic!("unknown suite {}", suite),
 	}
 }
